@@ -403,7 +403,7 @@ func runPeekRune(r *core.Run) {
 			}
 		}
 	}
-	r.Floor("rune look-ahead obligations", obs, 20)
+	r.Floor("rune look-ahead obligations", obs, 12)
 }
 
 // constResults: the distinct constants a module function can return (single integer result), if it returns only constants.
